@@ -8,6 +8,7 @@ from .. import core, corpus, diag, lang, larkconv, mv as MV, tgen
 from ..lang import Node
 
 ID = "C04"
+READY = True
 LEVEL = "exploration"
 WORKERS = {"quick": 8, "thorough": 16}
 BUDGET = {"quick": 60, "thorough": 420}
